@@ -199,6 +199,10 @@ func main() {
 							ln.Note += "sender reused after SetupPSK; "
 						}
 						rd := &vlib.BytesReader{B: v["ikmE"]}
+						if (rep+int(kemID)+int(aeadID)+mode)%3 == 1 { // the randomness arrives a few bytes per Read: the same ikmE, the same setup
+							rd.Chunk = 1 + (rep+mode)%7
+							ln.Note += "randomness read in chunks; "
+						}
 						switch mode {
 						case 0:
 							enc, sealer, serr = snd.Setup(rd)
